@@ -348,6 +348,18 @@ func init() {
 		}
 		return term.App("D", term.L(r.calls...), tErr(err), fe)
 	}
+	handlers["bitmap"] = func(a []T) T {
+		sets := mustBytes(a[0])
+		qs := mustBytes(a[1])
+		res := bgp.VerifBitmap(sets, qs)
+		out := make([]byte, len(res))
+		for i, r := range res {
+			if r {
+				out[i] = 1
+			}
+		}
+		return term.Hex(out)
+	}
 	handlers["fromerr"] = func(a []T) T {
 		n := bgp.UpdateNotificationFromErr(pErr(a[0]))
 		if n == nil {
